@@ -2843,6 +2843,19 @@ class RockRidge:
                                 # record; go on in a new one.
                                 curr_comp_area_length = 0
                                 continue
+                            if not curr_sl.symlink_components and sl_in_dr and self.dr_entries.ce_record is not None:
+                                # The little room the directory record has
+                                # left is no good for the start of this name;
+                                # start in the continuation area instead.
+                                self.dr_entries.sl_records.pop()
+                                curr_dr_len -= sl_rec_header_len
+                                curr_sl = RRSLRecord()
+                                curr_sl.new()
+                                self.ce_entries.sl_records.append(curr_sl)
+                                self.dr_entries.ce_record.add_record(sl_rec_header_len)
+                                curr_comp_area_length = RRSLRecord.maximum_component_area_length()
+                                sl_in_dr = False
+                                continue
                             length = curr_comp_area_length - 2
                     else:
                         length = complen
